@@ -253,7 +253,7 @@ func genCase(t *rapid.T) Case {
 	return c
 }
 
-var propHist = vk.Register(&vk.Prop[Case]{Property: property, Name: "history", Gen: genCase, Check: check, Quick: 8000, Thorough: 20000})
+var propHist = vk.Register(&vk.Prop[Case]{Property: property, Name: "history", Gen: genCase, Check: check, Quick: 20000, Thorough: 40000})
 
 func TestHistory(t *testing.T) { propHist.Run(t) }
 
@@ -341,7 +341,7 @@ func checkConc(c ConcCase) vk.Verdict {
 	return vk.Verdict{NonTrivial: overlap, Classes: []string{"algo:" + c.Algo, "store:" + c.Store, fmt.Sprintf("blocked-steps>0:%v", res.Blocked > 0)}}
 }
 
-var propConc = vk.Register(&vk.Prop[ConcCase]{Property: property, Name: "concurrent", Check: checkConc, Quick: 250, Thorough: 1500,
+var propConc = vk.Register(&vk.Prop[ConcCase]{Property: property, Name: "concurrent", Check: checkConc, Quick: 600, Thorough: 2500,
 	Gen: func(t *rapid.T) ConcCase {
 		c := ConcCase{Algo: rapid.SampledFrom([]string{"fixed", "sliding"}).Draw(t, "algo"), Store: rapid.SampledFrom([]string{"memory", "vk", "vk"}).Draw(t, "store"),
 			Limit: rapid.IntRange(1, 3).Draw(t, "limit")}
